@@ -365,7 +365,7 @@ fn slice_case(len: usize, fill: usize, rep: &mut Report) {
 fn instr_case(rng: &mut Rng, rep: &mut Report) {
     use revm::interpreter::{Contract, DummyHost, InstructionResult, Interpreter, InterpreterAction, SharedMemory};
     use revm::primitives::{eof::{EofBody, TypesSection}, Address, Bytecode, Bytes, Env, SpecId, U256};
-    let depth = match rng.below(8) {
+    let depth = if cfg!(miri) { rng.usize(20) } else { match rng.below(8) {
         0 => 0,
         1 => 1,
         2 => 2,
@@ -373,7 +373,7 @@ fn instr_case(rng: &mut Rng, rep: &mut Report) {
         4 => 1022 + rng.usize(3),
         5 => 255 + rng.usize(4),
         _ => rng.usize(40),
-    };
+    } };
     let mut model: Vec<W> = vec![];
     let mut code: Vec<u8> = vec![];
     for _ in 0..depth {
@@ -502,7 +502,7 @@ pub fn run(ctx: &Ctx) -> i32 {
         }
         println!("replayed: {} violation(s)", rep.violations.len());
     } else {
-        let total = if miri { ctx.n(300, 1500) } else { ctx.n(400_000, 20_000_000) };
+        let total = if miri { ctx.n(40, 200) } else { ctx.n(400_000, 20_000_000) };
         let shards = if miri { 1 } else { 64usize };
         let per = total / shards as u64;
         rep = par_shards(ctx, shards, |_i, rng, rep| {
@@ -519,14 +519,14 @@ pub fn run(ctx: &Ctx) -> i32 {
         });
         // push_slice sweep
         let lens: Vec<usize> = if miri {
-            (0..=70).chain(32_760..=32_776).collect()
+            (0..=36).chain(32_767..=32_769).collect()
         } else if ctx.quick() {
             (0..=2200).chain((2201..=32_832).step_by(7)).chain(32_700..=32_832).collect()
         } else {
             (0..=32_832).collect()
         };
         let exhaustive = !ctx.quick() && !miri;
-        let fills: Vec<usize> = if miri { vec![0, 1023] } else { vec![0, 1, 512, 1023] };
+        let fills: Vec<usize> = if miri { vec![0] } else { vec![0, 1, 512, 1023] };
         let mut jobs: Vec<(usize, usize)> = vec![];
         for &l in &lens {
             for &f in &fills {
@@ -553,7 +553,7 @@ pub fn run(ctx: &Ctx) -> i32 {
         });
         rep.merge(r2);
         // the stack instructions on a bare interpreter
-        let n_instr = if miri { ctx.n(60, 300) } else { ctx.n(40_000, 2_000_000) };
+        let n_instr = if miri { ctx.n(12, 60) } else { ctx.n(40_000, 2_000_000) };
         let r3 = par_shards(ctx, nshard, |_i, rng, rep| {
             for _ in 0..(n_instr / nshard as u64).max(1) {
                 instr_case(rng, rep);
